@@ -1891,7 +1891,7 @@ void BW_MidiSequencer::handleEvent(size_t track, const BW_MidiSequencer::MidiEve
             return;
     }
 
-    if(m_interface->onEvent)
+    if(m_interface->onEvent && evt.subtype <= 0xFF) // internal hook events don't fit the 8-bit sub-type of the raw event interface
     {
         m_interface->onEvent(m_interface->onEvent_userData,
                              evt.type, evt.subtype, evt.channel,
